@@ -14,13 +14,13 @@ def run(rep):
     fw.standin(rep, 'difftest.py', ['run', 'F2', rep.seed + 1, 6000 if q else 40000, '--max-depth', 4],
                'translation validation: compiled ;/->/\\+ bodies vs reference interpreter',
                'random body trees depth<=4')
-    fw.standin(rep, 'recog.py', ['run', 'tree', rep.seed, 2500 if q else 30000],
+    fw.standin(rep, 'recog.py', ['run', 'tree', rep.seed, 8000 if q else 40000],
                'precedence/associativity: real ANTLR parse + visitor vs independent reader of prolog.g4',
                'grammar-derived and corrupted programs; operator trees of every clause body compared')
-    fw.standin(rep, 's_tv.py', ['run', rep.seed, 2500 if q else 60000],
+    fw.standin(rep, 's_tv.py', ['run', rep.seed, 8000 if q else 80000],
                'A-CPY-TEXT: YPCode trees rendered by the real generator and executed by CPython vs the target semantics <<.>> (calls, answers, yields in order)',
                'all code lists of <=2 statements of depth <=1 + random trees of depth <=4 over goals with 0/1/2 answers, nested blocks')
-    fw.standin(rep, 's_ctl.py', ['run', rep.seed, 500 if q else 8000],
+    fw.standin(rep, 's_ctl.py', ['run', rep.seed, 2000 if q else 12000],
                'control constructs in clauses with plain distinct head variables (no enclosing loop), nested in conditions and under negation',
                'systematic nested-condition trees + random F2 trees')
     rep.notes.append('the visitor mapping and the ANTLR precedence are bounded-checked against the independent reader (A-EXT-ANTLR)')
